@@ -2,6 +2,7 @@ package historyprunner
 
 import (
 	"encoding/binary"
+	"errors"
 	"fmt"
 
 	"github.com/NethermindEth/juno/core"
@@ -108,6 +109,13 @@ func copyValue(
 		return nil
 	})
 	if err != nil {
+		if errors.Is(err, db.ErrKeyNotFound) {
+			// No history entry exists for this diff entry: a zero written to
+			// a never-written slot is a no-op for the legacy state (nothing
+			// is logged), and the new state backend keeps its history in
+			// other buckets. Nothing to move.
+			return nil
+		}
 		return err
 	}
 
